@@ -68,3 +68,66 @@ func TestType1(t *testing.T) { runType(t, 1, 150, 6000) }
 func TestType2(t *testing.T) { runType(t, 2, 150, 6000) }
 func TestType3(t *testing.T) { runType(t, 3, 150, 6000) }
 func TestType5(t *testing.T) { runType(t, 5, 150, 6000) }
+
+// TestInterleavedRequests: one client object per type creates several requests before any is finalized;
+// they are then issued and finalized in a drawn order. Every run must still be a valid, correctly bound issuance.
+func TestInterleavedRequests(t *testing.T) {
+	s := rt.S("interleaved").SetRule("one client object (package constructor) creates 2..4 requests of a type - same or different keys, challenges, nonces - before any is finalized; requests are evaluated and finalized in a drawn order; same oracle per run. non-trivial = every sequence; distinct by request bytes")
+	rt.Check(t, 120, 6000, func(t *rapid.T) {
+		defer rt.Entropy(gen.Seed().Draw(t, "entropy"))()
+		typ := gen.Pick(t, []uint16{1, 2, 3, 5}, "type")
+		cl := gen.NewClients()
+		n := gen.UniformRange(t, 2, 4, "requests")
+		var sessions []*gen.Session
+		o := gen.SessionOpts{MaxBatch: 4, RKeyIdx: -1, Clients: cl}
+		if typ == 3 {
+			o.ClientSecret = gen.P384KeyBytes().Draw(t, "clientSecret")
+		}
+		for i := 0; i < n; i++ {
+			sess, err := gen.NewSession(t, typ, o)
+			if err != nil {
+				rt.Fail(t, fmt.Sprintf("C01/%s/create", gen.TypeName(typ)), "request creation failed: %v", err)
+				return
+			}
+			sessions = append(sessions, sess)
+			if rapid.Bool().Draw(t, "sameKey") {
+				o.OKey, o.RKeyIdx = sess.OKey, rsaIndex(sess)
+				if typ == 3 {
+					o.Issuer3, o.Origin = sess.Issuer3, &sess.Origin
+				}
+			}
+		}
+		s.Eval()
+		s.Class(gen.TypeName(typ))
+		order := rapid.Permutation(sessions).Draw(t, "order")
+		var id []byte
+		for _, sess := range order {
+			resp, err := sess.IssueWire(append([]byte{}, sess.RequestBytes...))
+			if err != nil {
+				rt.Fail(t, fmt.Sprintf("C01/%s/issue", gen.TypeName(typ)), "issuer failed on an honest request: %v", err)
+				return
+			}
+			toks, err := sess.Finalize(append([]byte{}, resp...))
+			if err != nil {
+				rt.Fail(t, fmt.Sprintf("C01/%s/finalize", gen.TypeName(typ)), "client rejected the honest response of one of %d interleaved requests: %v", n, err)
+				return
+			}
+			if err := sess.CheckTokens(toks); err != nil {
+				rt.Fail(t, fmt.Sprintf("C01/%s/token", gen.TypeName(typ)), "interleaved requests of one client: %v", err)
+				return
+			}
+			id = append(id, sess.RequestBytes...)
+		}
+		s.Nontrivial(id)
+		s.Sample(func() any { return map[string]any{"type": typ, "requests": n} })
+	})
+}
+
+func rsaIndex(s *gen.Session) int {
+	for i, k := range gen.RSAPool() {
+		if k == s.RKey {
+			return i
+		}
+	}
+	return -1
+}
